@@ -278,10 +278,33 @@ func checkPut(c *Case) (res kit.Result) {
 	if L < 0 || L > K || K < 1 {
 		return
 	}
+	var bad kit.AnyBuf
+	if c.PutKind == "grownPartial" {
+		// a buffer that a growing Append left with a partial last frame: P1 single samples, then
+		// F2 more from a source. The pool's total capacity is the whole frames below its length,
+		// so the buffer holds more samples than the pool's buffers can: its capacity differs.
+		if C < 2 || c.P1 < 1 || c.P1 >= C || c.F2 < 1 || c.F2 > 200 {
+			return
+		}
+		g := kit.AllocAny(c.S, signal.Allocator{Channels: C, Length: 0, Capacity: 1})
+		for k := 0; k < c.P1; k++ {
+			g.AppendSample(kit.IV(int64(1 + k)))
+		}
+		src := kit.AllocAny(c.S, signal.Allocator{Channels: C, Length: 0, Capacity: c.F2/C + 1})
+		for k := 0; k < c.F2; k++ {
+			src.AppendSample(kit.IV(int64(2 + k%80)))
+		}
+		g.Append(src)
+		n := c.P1 + c.F2
+		if g.Len() != n || n%C == 0 || n/C < 1 {
+			return
+		}
+		bad, K, L = g, n/C, 0
+	}
 	al := signal.Allocator{Channels: C, Length: L, Capacity: K}
 	pool := kit.NewAnyPool(c.S, al)
-	var bad kit.AnyBuf
 	switch c.PutKind {
+	case "grownPartial":
 	case "otherK":
 		k2 := K + 1 + c.Spare
 		bad = kit.AllocAny(c.S, signal.Allocator{Channels: C, Length: kit.Min(L, k2), Capacity: k2})
@@ -314,6 +337,9 @@ func checkPut(c *Case) (res kit.Result) {
 	}
 	// recognisable contents over the rejected buffer's whole capacity
 	full := bad.Slice(0, bad.Hdr().Capacity)
+	if c.PutKind == "grownPartial" {
+		full = bad // its samples (all of them, including the partial last frame) are the contents
+	}
 	for i := 0; i < full.Len(); i++ {
 		full.Set(i, kit.IV(int64(1+i%90)))
 	}
@@ -322,7 +348,11 @@ func checkPut(c *Case) (res kit.Result) {
 		pool.Put(pool.Get()) // a legitimate, untouched buffer sits in the pool
 	}
 	what := fmt.Sprintf("Put(%s buffer: %d ch, cap %d samples) into a pool of {%d ch, length %d, capacity %d}", c.PutKind, bh.Channels, bh.Cap, C, L, K)
-	if bh.Cap == C*K {
+	trueCap := bh.Cap
+	if _, rc, ok := kit.RawLenCap(bad.Raw()); ok {
+		trueCap = rc // the storage itself, not what Cap() says about it
+	}
+	if trueCap == C*K && bh.Len <= C*K {
 		return // not a mismatch after all
 	}
 	panicked, _ := kit.Try(func() { pool.Put(bad) })
@@ -422,7 +452,12 @@ func Gen(t *rapid.T) *Case {
 		c.N = other("n", 0, 9, c.C1)
 	case "put":
 		c.S = rapid.SampledFrom(names).Draw(t, "type")
-		c.PutKind = rapid.SampledFrom([]string{"otherK", "smallerK", "otherC", "laterFrame", "grown"}).Draw(t, "putKind")
+		c.PutKind = rapid.SampledFrom([]string{"otherK", "smallerK", "otherC", "laterFrame", "grown", "grownPartial"}).Draw(t, "putKind")
+		if c.PutKind == "grownPartial" {
+			c.C1 = rapid.IntRange(2, 8).Draw(t, "gpC")
+			c.P1 = rapid.IntRange(1, c.C1-1).Draw(t, "gpPre")
+			c.F2 = rapid.IntRange(1, 60).Draw(t, "gpSrc")
+		}
 		c.C2 = other("c2", 1, 8, c.C1)
 		c.L = rapid.IntRange(0, c.F1).Draw(t, "l")
 		c.PrePut = rapid.Bool().Draw(t, "prePut")
